@@ -579,12 +579,14 @@ fn execute_write_count(db: &core::Db, cypher: &str, params: &Params) -> ApiResul
         ));
     }
     let prepared = prepare(cypher).map_err(|e| ApiError::from_query_message(&e.to_string()))?;
-    let snapshot = db.snapshot();
-    #[cfg(nervusdb_verif)]
-    core::verif_hooks::sched("capi.write.after_snapshot");
+    // take the writer lock first: a snapshot taken before it could be older than the state this
+    // statement's writes are committed on top of (a lost update between concurrent statements)
     let mut txn = db.begin_write();
     #[cfg(nervusdb_verif)]
     core::verif_hooks::sched("capi.write.after_begin_write");
+    let snapshot = db.snapshot();
+    #[cfg(nervusdb_verif)]
+    core::verif_hooks::sched("capi.write.after_snapshot");
     let (_rows, write_count) = prepared
         .execute_mixed(&snapshot, &mut txn, params)
         .map_err(|e| ApiError::from_query_message(&e.to_string()))?;
